@@ -198,7 +198,7 @@ class Interp(object):
             raise exc
         except Exception:
             self.api("write_traceback", write_traceback)
-        f = self._fail_fields(exc)
+        f = self._fail_fields(exc, getattr(self, "extractors", None))
         f["traceback"] = ANYTEXT
         gt = {"kind": "message", "type": "eliot:traceback", "fields": f, "nid": node["nid"], "tb": True}
         if cur is None:
@@ -251,6 +251,8 @@ class Interp(object):
 
         if style == "log_call":
             return self._exec_log_call(node, gt, gt_children, cur, start)
+        if style in ("gen_with", "gen_context"):
+            return self._exec_gen_style(node, gt, gt_children, cur, start, success_expected)
 
         # ---- start the action
         if style in ("with", "ctx_finish", "run_finish"):
@@ -272,9 +274,23 @@ class Interp(object):
         body_exc = [None]
         out = None
 
+        def reentered(kinds):
+            # re-enter the context()/run() of the action that is already current
+            if not kinds:
+                return self._body(node, gt, action)
+            self.count("reenter:" + kinds[0])
+            try:
+                if kinds[0] == "context":
+                    with action.context():
+                        reentered(kinds[1:])
+                else:
+                    action.run(reentered, kinds[1:])
+            finally:
+                self.probe(action, "after leaving re-entered %s of action %s" % (kinds[0], node["nid"]))
+
         def guarded_body():
             try:
-                self._body(node, gt, action)
+                reentered(node.get("reenter") or [])
                 self.api("add_success_fields", action.add_success_fields, **success)
             except BaseException as e:
                 body_exc[0] = e
@@ -311,6 +327,65 @@ class Interp(object):
                 self.api("Action.finish(again, exc)", action.finish, RuntimeError("late"))
             else:
                 self.api("Action.finish(again)", action.finish)
+        self._propagate(out)
+
+    def _exec_gen_style(self, node, gt, gt_children, cur, start, success_expected):
+        """The action's block lives in a plain generator: entered by next(), left by close() or throw()."""
+        style = node["style"]
+        holder = []
+
+        def g():
+            a = start_action(action_type=node["type"], **start)
+            holder.append(a)
+            if style == "gen_with":
+                with a:
+                    yield 1
+            else:
+                with a.context():
+                    yield 1
+
+        gen = g()
+        try:
+            with warnings.catch_warnings():
+                warnings.simplefilter("ignore")
+                next(gen)
+        except BaseException as e:
+            self.viol("starting/entering an action inside a generator raised %r" % (e,))
+            return
+        action = holder[0]
+        self._attach(None if cur is None else gt_children, gt)
+        # a plain generator shares its driver's context: the action is current in the driver now
+        out = None
+        try:
+            self._body(node, gt, action)
+        except BaseException as e:
+            out = e
+        left = None
+        try:
+            if out is None:
+                self.count("generator_close")
+                gen.close()
+            else:
+                self.count("generator_throw")
+                gen.throw(out)
+        except BaseException as e:
+            left = e
+        if isinstance(out, StopIteration) and isinstance(left, RuntimeError) and left.__cause__ is out:
+            left = out  # PEP 479: Python itself wraps a StopIteration leaving a generator frame
+        if left is not out:
+            self.viol("exception leaving generator-held block of action %s is %r, thrown in %r" % (node["nid"], left, out))
+        self.probe(cur, "after closing generator-held action %s (%s)" % (node["nid"], "throw" if out is not None else "close"))
+        if style == "gen_with":
+            if out is None:
+                # close() makes GeneratorExit escape the with-block: a failed action by C03's rule
+                gt["status"] = "failed"
+                gt["end"] = {"exception": "builtins.GeneratorExit", "reason": ""}
+                gt["exc_class"] = "GeneratorExit"
+            else:
+                self._finish_gt(gt, node, out, success_expected)
+        else:
+            self.api("Action.finish", action.finish, out)
+            self._finish_gt(gt, node, out, {})
         self._propagate(out)
 
     def _exec_log_call(self, node, gt, gt_children, cur, start):
